@@ -138,6 +138,62 @@ func (fc *FnCtx) alloc(st *State, hint string, t types.Type) Term {
 	return r
 }
 
+// ownedRef: a struct *value* held in a local (boxed as a reference that nothing else can reach).
+// Calls cannot modify it (frame rule F1), so its fields are carried across heap havocs.
+type ownedRef struct {
+	ref  Term
+	t    types.Type
+	cond Term
+}
+
+func (fc *FnCtx) own(st *State, r Term, t types.Type) {
+	if t == nil || !isStructVal(t) {
+		return
+	}
+	fc.owned = append(fc.owned, ownedRef{ref: r, t: t, cond: st.live})
+}
+
+func (fc *FnCtx) disown(r Term) {
+	for i := range fc.owned {
+		if fc.owned[i].ref.S == r.S {
+			fc.owned[i].cond = tFalse
+		}
+	}
+}
+
+// ownResult treats a struct-valued call result as a freshly allocated, locally owned value.
+func (fc *FnCtx) ownResult(st *State, r Term) {
+	if r.T == nil || !isStructVal(r.T) || r.Sort != SInt {
+		return
+	}
+	cur := fc.get(st, allocKey, SInt, nil)
+	fc.assume(st, boolT(fmt.Sprintf("(> %s %s)", r.S, cur.S)))
+	fc.set(st, allocKey, Term{S: r.S, Sort: SInt})
+	fc.own(st, r, r.T)
+}
+
+// preserveOwned re-asserts the fields of owned struct values after heap key k was havocked from old to nv.
+func (fc *FnCtx) preserveOwned(st *State, k heapKey, old, nv Term) {
+	f := fc.keyObj[k]
+	if f == nil {
+		return
+	}
+	for _, o := range fc.owned {
+		if o.cond.S == "false" {
+			continue
+		}
+		stT, ok := o.t.Underlying().(*types.Struct)
+		if !ok {
+			continue
+		}
+		for i := 0; i < stT.NumFields(); i++ {
+			if stT.Field(i).Origin() == f {
+				fc.assume(st, tImp(o.cond, boolT(fmt.Sprintf("(= (select %s %s) (select %s %s))", nv.S, o.ref.S, old.S, o.ref.S))))
+			}
+		}
+	}
+}
+
 // allocated records that a reference value read from the heap / a parameter predates the current allocation mark.
 func (fc *FnCtx) allocated(st *State, v Term) {
 	if v.Sort != SInt || v.T == nil {
@@ -539,16 +595,19 @@ func (fc *FnCtx) unary(st *State, e *ast.UnaryExpr) Term {
 		case *ast.Ident:
 			if isStructVal(fc.typeOf(x)) {
 				v := fc.ident(st, x)
+				fc.disown(v)
 				return Term{S: v.S, Sort: SInt, T: fc.typeOf(e)}
 			}
 		case *ast.SelectorExpr:
 			if isStructVal(fc.typeOf(x)) {
 				v := fc.selector(st, x)
+				fc.disown(v)
 				return Term{S: v.S, Sort: SInt, T: fc.typeOf(e)}
 			}
 		case *ast.IndexExpr:
 			if isStructVal(fc.typeOf(x)) {
 				v := fc.index(st, x)
+				fc.disown(v)
 				return Term{S: v.S, Sort: SInt, T: fc.typeOf(e)}
 			}
 		}
@@ -922,6 +981,9 @@ func (fc *FnCtx) compositeLit(st *State, e *ast.CompositeLit, addr bool) Term {
 	switch u := t.Underlying().(type) {
 	case *types.Struct:
 		r := fc.alloc(st, "new_"+ownerName(t), t)
+		if !addr {
+			fc.own(st, r, t)
+		}
 		set := map[int]bool{}
 		for i, el := range e.Elts {
 			var f *types.Var
@@ -1004,6 +1066,7 @@ func (fc *FnCtx) compositeLit(st *State, e *ast.CompositeLit, addr bool) Term {
 
 func (fc *FnCtx) zeroStruct(st *State, t types.Type) Term {
 	r := fc.alloc(st, "zero_"+ownerName(t), t)
+	fc.own(st, r, t)
 	u := t.Underlying().(*types.Struct)
 	for j := 0; j < u.NumFields(); j++ {
 		f := u.Field(j)
@@ -1059,6 +1122,7 @@ func (fc *FnCtx) copyStruct(st *State, src Term, t types.Type) Term {
 		return src
 	}
 	r := fc.alloc(st, "copy_"+ownerName(t), t)
+	fc.own(st, r, t)
 	for j := 0; j < u.NumFields(); j++ {
 		f := u.Field(j)
 		v := fc.readField(st, src, t, f)
